@@ -230,6 +230,28 @@ def rule_iocheck(ctx, fx, config):
               "io_error() no longer converts the stored error into Error::IOError", config, ctx.where(g))
 
 
+def rule_skip_end(ctx, fx, config):
+    """SKIP-END: skip_to_next_document() answers `false` both for a clean end of the stream and for a stream cut short by a
+    reader failure / the byte cap (the char source just ends).  An iterator that stops on that answer consults finish(),
+    which is where a stored I/O error surfaces, before it returns."""
+    n = 0
+    for f in proto.iterator_nexts(fx):
+        sk = [(b, t) for b, t in f.calls() if fx.callee(t) == "live_events::LiveEvents::skip_to_next_document"]
+        fin = [b for b, t in f.calls() if fx.callee(t) == proto.FINISH]
+        for b, t in sk:
+            n += 1
+            ctx.saw(f)
+            e = switch_edges(f, t["t"]) if t["t"] is not None else None
+            if not e:
+                ctx.bad("IOCHECK", "C10:IOCHECK:skip-end:%s" % f.npath, "the result of skip_to_next_document() is not branched on", config, ctx.where(f, b))
+                continue
+            sym = f.sym_operand(f.blocks[t["t"]]["term"]["o"])
+            ended = e[0] if sym[0] == "un" else e[1]
+            ctx.check(bool(fin) and must_pass(f, [ended], fin), "IOCHECK", "C10:IOCHECK:skip-end:%s" % f.npath, "when the skip reaches the end of the stream the iterator consults finish() before returning",
+                      "%s returns after skip_to_next_document() reported the end of the stream without consulting finish(): a reader failure (or the byte cap) that ended the stream during the skip is reported as a clean end" % f.npath, config, ctx.where(f, b))
+    ctx.floor("IOCHECK.skip-end-sites", n, 1, config)
+
+
 def rule_discard(ctx, fx, config):
     n = 0
     allowed = 0
@@ -309,5 +331,6 @@ def run(ctx):
         rule_iocheck(ctx, fx, config)
         n4 = proto.check_p4(ctx, fx, config) + proto.check_p4_iter(ctx, fx, config)
         ctx.floor("PROTO.p4", n4, 6, config)
+        rule_skip_end(ctx, fx, config)
         rule_discard(ctx, fx, config)
         rule_writer(ctx, fx, config)
